@@ -64,6 +64,10 @@ func (v *BasicSeqnoValidator) validate(ctx context.Context, _ peer.ID, m *Messag
 
 	var seqno uint64
 	seqnoBytes := m.GetSeqno()
+	if len(seqnoBytes) > 0 && len(seqnoBytes) != 8 {
+		// the seqno is a 64-bit big-endian integer; anything else is malformed
+		return ValidationReject
+	}
 	if len(seqnoBytes) > 0 {
 		seqno = binary.BigEndian.Uint64(seqnoBytes)
 	}
